@@ -47,6 +47,16 @@ def run(ck, tier, seed):
             for d in (0, 1, 3):
                 for ppm in (0, 12):
                     srcs.append({"font": stepfont, "text": t, "dir": d, "ppm": ppm})
+    # fonts that ask for line-end markers around the justified line (Silf flags bit 0; staged from shipped fonts)
+    letexts = {"charis": "udhr_eng.txt", "Padauk": "my_HeadwordSyllables.txt", "Scheherazadegr": "udhr_arb.txt"}
+    for lf in corpus.lineend_fonts(tmp):
+        key = [k for k in letexts if k in os.path.basename(lf)][0]
+        ls = [l.strip() for l in open(os.path.join(corpus.T, letexts[key]), encoding="utf-8") if len(l.strip()) >= 6]
+        rng.shuffle(ls)
+        for t in ls[:(2 if q else 12)]:
+            for d in (0, 1, 3):
+                for ppm in (0, 12):
+                    srcs.append({"font": lf, "text": t[:rng.choice([8, 20, 40])], "dir": d, "ppm": ppm})
     sf = os.path.join(tmp, "sources.ndjson")
     open(sf, "w").write("\n".join(json.dumps(s) for s in srcs) + "\n")
     trace = os.path.join(tmp, "trace.ndjson")
